@@ -669,8 +669,14 @@ static void iauth_xquery_services_changed(struct conf_node_base *node)
                 struct conf_node_string *str = set_node_data(jj);
                 if (!base->hook)
                     base->hook = iauth_xquery_service_changed;
-                if (str->value)
-                    iauth_xquery_config_service(str->base.name, str->value);
+                if (!str->value)
+                    continue;
+                /* The name becomes a word of the XQUERY line. */
+                if (str->base.name[0] == '\0' || strpbrk(str->base.name, " \t\r\n")) {
+                    log_message(iauth_xquery_log, LOG_WARNING, "Ignoring service '%s': not a valid server name", str->base.name);
+                    continue;
+                }
+                iauth_xquery_config_service(str->base.name, str->value);
             } /* else unknown type */
         }
 
